@@ -477,7 +477,10 @@ DEFAULT_OPTS = {
 }
 
 DEFAULT_KVS = dict((k, v['default']) for k, v in DEFAULT_OPTS.items())
-DEFAULT_BOOLS = dict((k, v) for k, v in DEFAULT_KVS.items() if type(v) is bool).keys()
+DEFAULT_BOOLS = dict(
+    (k, v['default']) for k, v in DEFAULT_OPTS.items()
+    if type(v['default']) is bool or v.get('action') in ('store_true', 'store_false')
+).keys()
 
 
 class InsightsConfig(object):
